@@ -35,6 +35,9 @@ class Inconclusive(Exception):
 
 
 SOLVER_TIMEOUT_MS = int(os.environ.get("PYSYM_SOLVER_TIMEOUT_MS", "60000"))
+# thorough tier: every N-th non-trivial obligation is re-decided by the cvc5 binary (0 = off)
+def cvc5_sample():
+    return int(os.environ.get("VERIF_CVC5_SAMPLE", "0") or 0)
 
 
 class Stats:
@@ -76,6 +79,10 @@ class Stats:
             cur[1] += v[1]
         for k, v in o.reached.items():
             self.reached[k] = self.reached.get(k, 0) + v
+        so = getattr(o, "second_opinion", None)
+        if so:
+            mine = getattr(self, "second_opinion", [0, 0, 0])
+            self.second_opinion = [x + y for x, y in zip(mine, so)]
 
 
 class Ctx:
@@ -210,6 +217,11 @@ class Ctx:
             else:
                 neg = z3.Not(term)
                 ok = not self._check(neg)
+                n = cvc5_sample()
+                if n:
+                    st.nontrivial = getattr(st, "nontrivial", 0) + 1
+                    if st.nontrivial % n == 1:
+                        self._second_opinion(neg, ok, name)
         if ok:
             st.discharged += 1
             cnt[1] += 1
@@ -225,6 +237,40 @@ class Ctx:
             rec.setdefault("obligation", name)
             st.failed.append(rec)
         return False
+
+    def _second_opinion(self, neg, z3_says_valid, name):
+        """thorough tier: re-decide a sample of the obligations with the cvc5 binary (QF_UFLIA / strings)"""
+        import subprocess
+        import tempfile
+        st = self.eng.stats
+        s2 = z3.Solver()
+        for t in self.pc:
+            s2.add(t)
+        s2.add(neg)
+        smt = s2.to_smt2()
+        if "String" in smt or "str." in smt or "re." in smt:
+            return          # cvc5 1.0.3 and z3 disagree on string *syntax* extensions; strings are z3-only here
+        smt = "(set-logic ALL)\n" + smt
+        fd, path = tempfile.mkstemp(suffix=".smt2")
+        try:
+            with os.fdopen(fd, "w") as fh:
+                fh.write(smt)
+            r = subprocess.run(["cvc5", "--tlimit=20000", path], capture_output=True, text=True, timeout=40)
+            out = (r.stdout.strip().splitlines() or ["?"])[0]
+        except Exception as exc:        # noqa
+            out = "error: " + str(exc)
+        finally:
+            os.unlink(path)
+        st.second_opinion = getattr(st, "second_opinion", [0, 0, 0])
+        st.second_opinion[0] += 1
+        if out in ("sat", "unsat"):
+            cvc5_valid = (out == "unsat")
+            if cvc5_valid == z3_says_valid:
+                st.second_opinion[1] += 1
+            else:
+                st.errors.append(f"solver disagreement on obligation {name!r}: z3 says valid={z3_says_valid}, cvc5 says {out}")
+        else:
+            st.second_opinion[2] += 1      # unknown / time-out / parse problem: no opinion
 
     def reach(self, marker):
         r = self.eng.stats.reached
